@@ -11,9 +11,9 @@
     (a)  `fails_iff_lexical_error`  — same error value as the lexer's
     (b)  `pieces_ok`               — `PiecesOK`: text, range, order, at least the separator byte apart; never empty
          `never_crashes`           — no runtime panic, loop terminates with the fuel `len+3`
-  Not proved (partial): (c) and (d) at the level of tokens.  They are evaluated on the implementation by the
-  C12 predicate of the harness (against the implementation's own token stream) and the model is tied to the
-  code by the SPLIT channel; (d) follows from (c) and C13's tiling but that corollary is not stated here.
+  (c) is proved in `MF/Props/C12Tokens.lean` (same namespace): the loop computes `specPieces`, a fold over the token
+  list, and the partition clauses hold of it.  (d): a ';' inside a literal or comment is inside a token or comment
+  of the stream (C13 tiling), hence not a ';' TOKEN, hence — by `pieces_from_tokens` — not a cut.
 -/
 import MF.Proofs.Split
 namespace MF.Props.C12
